@@ -51,6 +51,9 @@ class Noise(ast.NodeTransformer):
     visit_AsyncFunctionDef = _do
 
 
+
+from sa.variants import Flip, Guard, WhileTrue, DeMorgan  # noqa: E402
+
 def main():
     mode, dst = sys.argv[1], sys.argv[2]
     if os.path.exists(dst):
@@ -67,6 +70,8 @@ def main():
                     tree = Renamer().visit(tree)
                 elif mode == "wrap":
                     tree = Wrap().visit(tree)
+                elif mode in ("flip", "guard", "whiletrue", "demorgan"):
+                    tree = {"flip": Flip, "guard": Guard, "whiletrue": WhileTrue, "demorgan": DeMorgan}[mode]().visit(tree)
                 elif mode == "noise":
                     has_log = any(isinstance(x, ast.Assign) and any(isinstance(t, ast.Name) and t.id == "log" for t in x.targets) for x in tree.body)
                     if has_log:
